@@ -4,7 +4,7 @@
 From Coq Require Import List NArith Bool Arith Sorted.
 From Coq Require Import Strings.Byte.
 Require Import BS.Bytes BS.Common BS.Api BS.Layout BS.Format BS.FormatFacts BS.Spec BS.SpecStep.
-Require Import BS.FS BS.FSFacts BS.Meta BS.MetaFacts BS.Header BS.Reader BS.ReaderFacts BS.Index BS.Data BS.DataFacts BS.Seek BS.Series BS.SeriesFacts BS.World BS.WorldFacts.
+Require Import BS.FS BS.FSFacts BS.Meta BS.MetaFacts BS.Header BS.Reader BS.ReaderFacts BS.Index BS.Data BS.DataFacts BS.Seek BS.Series BS.SeriesFacts BS.HeaderFacts BS.OpenFacts BS.World BS.WorldFacts.
 Import ListNotations.
 
 (* (F) codec core, every payload size, every u64 timestamp, every payload byte pattern, every length *)
@@ -71,3 +71,18 @@ Example C01_roundtrip_premises :
   fs_mem [] (["s"]%byte ++ ext_data) = false /\ fs_mem [] (["s"]%byte ++ ext_index) = false
   /\ (len (params_to_text BSgen.Consts.version 2 ++ []) <= 65535)%N.
 Proof. repeat split. vm_compute. discriminate. Qed.
+
+(* (I refines S) across a close and reopen, payload sizes >= 4 (for 0..3 see props/C04.v): every read of every range
+   returns exactly the selected lines of the list the first session appended *)
+Theorem C01_across_reopen : forall p fs s uhdr name popt hdropt cb l, 4 <= p ->
+  let header := params_to_text BSgen.Consts.version (N.of_nat p) ++ uhdr in
+  RepH fs s p (outer header) (outer []) l ->
+  of_name (d_file (s_data s)) = name ++ ext_data -> of_name (ix_file (d_index (s_data s))) = name ++ ext_index ->
+  (len header <= 65535)%N -> (len (encode p l) < 2^64)%N -> (N.of_nat p < 2^64)%N ->
+  (popt = None \/ popt = Some (N.of_nat p)) ->
+  match hdropt with HdrIs e => e = uhdr | HdrAny => True end ->
+  exists s', builder_open name popt hdropt [] cb fs = (fs, Ok (s', uhdr))
+    /\ forall lo hi, read_all s' lo hi fs = (fs, Ok (select lo hi l))
+                     \/ (select lo hi l = [] /\ read_all s' lo hi fs = (fs, Err ERange)).
+Proof. exact reopen_then_read. Qed.
+Print Assumptions C01_across_reopen.
